@@ -64,6 +64,20 @@ func (c *Client) Send(b []byte) error {
 // Close closes the connection.
 func (c *Client) Close() { _ = c.C.Close() }
 
+// Abort closes the connection abortively (RST, no TIME_WAIT). High-volume
+// parts whose property does not depend on how the client leaves use it so
+// that long runs do not exhaust the ephemeral ports.
+func (c *Client) Abort() {
+	nc := c.C
+	if tc, ok := nc.(*tls.Conn); ok {
+		nc = tc.NetConn()
+	}
+	if t, ok := nc.(*net.TCPConn); ok {
+		_ = t.SetLinger(0)
+	}
+	_ = c.C.Close()
+}
+
 // ErrTimeout is returned by Next when no complete frame arrived in time.
 var ErrTimeout = errors.New("lab: timeout waiting for a frame")
 
